@@ -967,7 +967,8 @@ def exec_loop_invariant(eng, n, st: State, key, spec):
 
 
 def is_mutable_ref(st, v):
-    return isinstance(v, VRef) and st.heap[v.oid].kind in ("buf", "list", "dict", "cset", "inst", "msg")
+    # (symbolic lists / sets are mutable objects too: a loop that extends one must have it havocked at the loop head)
+    return isinstance(v, VRef) and st.heap[v.oid].kind in ("buf", "list", "dict", "cset", "inst", "msg", "slist", "sset", "imap")
 
 
 def havoc_like(eng, st, old: V, name, ty=None):
